@@ -720,3 +720,81 @@ func rulePOS1(c *Ctx) {
 	})
 	c.check(loopOK, "POS.1/trace-walk", run, "walks frames innermost first down to the main frame", "the trace loop in Run does not walk `framesIndex > 1`, decrementing and reading frame framesIndex-1")
 }
+
+// SEARCH.1 (C14): position → file lookup. searchFiles must be "index of the
+// last file whose Base is <= x": either sort.Search over `a[i].Base > x`
+// minus one, or a hand-inlined binary search that is a clone of its sibling
+// searchInts (which documents exactly that equivalence) with a[h].Base for a[h].
+func ruleSEARCH1(c *Ctx) {
+	w := c.W
+	p := w.Parser
+	sf, si := w.FuncDecl(p, "searchFiles"), w.FuncDecl(p, "searchInts")
+	if sf == nil || si == nil {
+		c.anchor("parser.searchFiles / searchInts")
+		return
+	}
+	form1 := false
+	if len(sf.Body.List) == 1 {
+		if r, ok := sf.Body.List[0].(*ast.ReturnStmt); ok && len(r.Results) == 1 {
+			if b, ok := ast.Unparen(r.Results[0]).(*ast.BinaryExpr); ok && b.Op == token.SUB {
+				if k, ok := ConstInt(p, b.Y); ok && k == 1 {
+					if call, ok := ast.Unparen(b.X).(*ast.CallExpr); ok && FuncFullName(Callee(p, call)) == "sort.Search" && len(call.Args) == 2 {
+						if fl, ok := call.Args[1].(*ast.FuncLit); ok && len(fl.Body.List) == 1 {
+							if rr, ok := fl.Body.List[0].(*ast.ReturnStmt); ok && len(rr.Results) == 1 {
+								if cb, ok := ast.Unparen(rr.Results[0]).(*ast.BinaryExpr); ok && cb.Op == token.GTR {
+									l := strings.ReplaceAll(w.Src(cb.X), " ", "")
+									if strings.HasSuffix(l, "].Base") && w.Src(call.Args[0]) == "len("+strings.Split(l, "[")[0]+")" {
+										form1 = true
+									}
+								}
+							}
+						}
+					}
+				}
+			}
+		}
+	}
+	form2 := false
+	if !form1 {
+		// bodies only (the parameter types differ by design); prefix notation with
+		// fixed arities, so the bracket-free token sequence is unambiguous
+		a := searchTokens(canonStmts(p, sf, sf.Body.List, map[string]string{".Base": "BASEFIELD"}))
+		b := searchTokens(canonStmts(p, si, si.Body.List, nil))
+		form2 = strings.Count(a, "IndexExpr") == 1 && a == b
+	}
+	c.check(form1 || form2, "lookup/searchFiles", sf, "last file with Base <= x (sort.Search over Base > x, minus one)", "searchFiles is neither `sort.Search(len(a), a[i].Base > x) - 1` nor a clone of searchInts over a[h].Base: error positions at a file boundary can resolve to the wrong file (or to none)")
+	// SourceFileSet.file: the containment test is Base <= p <= Base+Size in both places
+	ff := w.FuncDecl(p, "SourceFileSet.file")
+	if ff != nil {
+		n := 0
+		ast.Inspect(ff.Body, func(nd ast.Node) bool {
+			is, ok := nd.(*ast.IfStmt)
+			if !ok {
+				return true
+			}
+			s := strings.ReplaceAll(w.Src(is.Cond), " ", "")
+			if strings.Contains(s, "<=f.Base+f.Size") {
+				n++
+			}
+			return true
+		})
+		c.check(n == 2, "lookup/containment", ff, "both the cached and the searched file are accepted only if the position lies in [Base, Base+Size]", fmt.Sprintf("expected two containment tests `p <= f.Base+f.Size` in SourceFileSet.file, found %d", n))
+	}
+}
+
+// searchTokens drops brackets and the `.Base` selector wrapper around a[h].
+func searchTokens(s string) string {
+	s = strings.NewReplacer("(", " ", ")", " ").Replace(s)
+	f := strings.Fields(s)
+	var out []string
+	for i := 0; i < len(f); i++ {
+		if f[i] == "SelectorExpr" && i+1 < len(f) && f[i+1] == "IndexExpr" {
+			continue
+		}
+		if f[i] == "BASEFIELD" {
+			continue
+		}
+		out = append(out, f[i])
+	}
+	return strings.Join(out, " ")
+}
